@@ -13,6 +13,7 @@ import (
 	"sort"
 	"strconv"
 	"strings"
+	"sync"
 )
 
 type lop struct {
@@ -394,6 +395,7 @@ func init() {
 	oracles["C09"] = func(c *oracleCtx) {
 		// deriving operations on both container kinds: the list pool and the object pool
 		c09DeriveTwice(c)
+		c09OverlappingReaders(c)
 		if c.filter != nil {
 			lf, of := map[string]bool{}, map[string]bool{}
 			for id := range c.filter {
@@ -651,6 +653,64 @@ func c05Identity(c *oracleCtx) {
 			})
 		}
 	}
+}
+
+// c09OverlappingReaders: the pure readers leave the receiver unchanged for every observer, also one that reads at the
+// same time (another goroutine holding the same container): every overlapping call gives the sequential result
+func c09OverlappingReaders(c *oracleCtx) {
+	c.check("overlapping-readers", true, func() string {
+		inner := NewList(1, "x", NewObject("k", 2.5))
+		l := NewList()
+		o := NewObject()
+		for i := 0; i < 120; i++ {
+			l.Add(i, inner, "s"+strconv.Itoa(i))
+			o.Set("k"+strconv.Itoa(i), i, "n"+strconv.Itoa(i), inner)
+		}
+		ls, os, lf, lc := l.String(), nativeAny(o), l.FormatString(2), l.Count()
+		type reader struct {
+			id string
+			f  func() bool
+		}
+		readers := []reader{
+			{"List.String", func() bool { return l.String() == ls }}, {"List.FormatString", func() bool { return l.FormatString(2) == lf }},
+			{"List.Count/Get", func() bool { return l.Count() == lc && l.Get(lc-1) == "s119" && l.GetList(1) == inner }},
+			{"List.Equals", func() bool { return l.Equals(l) }}, {"List.Contains/IndexOf", func() bool { return l.Contains("s119") && l.IndexOf(inner) == 1 }},
+			{"List.SubList/Clone", func() bool { return l.SubList(0, lc).Equals(l) && l.Clone().Count() == lc }},
+			{"Object.String", func() bool { return len(o.String()) > 0 && o.Count() == 240 }}, {"Object.NativeDict", func() bool { return reflect.DeepEqual(nativeAny(o), os) }},
+			{"Object.Equals/Keys", func() bool { return o.Equals(o) && o.Keys().Count() == 240 && o.GetList("n7") == inner }},
+			{"inner.String", func() bool { return inner.String() == `[1,"x",{"k":2.5}]` && inner.Count() == 3 }},
+		}
+		var mu sync.Mutex
+		bad := ""
+		var wg sync.WaitGroup
+		for g := 0; g < 12; g++ {
+			wg.Add(1)
+			go func(g int) {
+				defer wg.Done()
+				for it := 0; it < 60; it++ {
+					r := readers[(g+it)%len(readers)]
+					ok := false
+					func() {
+						defer func() { recover() }()
+						ok = r.f()
+					}()
+					if !ok {
+						mu.Lock()
+						bad = r.id
+						mu.Unlock()
+					}
+				}
+			}(g)
+		}
+		wg.Wait()
+		if bad != "" {
+			return bad + " observes a changed container (or panics) while other readers run on the same container"
+		}
+		if l.String() != ls || !reflect.DeepEqual(nativeAny(o), os) || inner.Count() != 3 {
+			return "the containers are changed after overlapping read-only calls"
+		}
+		return ""
+	})
 }
 
 func c09DeriveTwice(c *oracleCtx) {
